@@ -162,6 +162,24 @@ fn k13_brickcolor_number() {
     }
 }
 
+// completeness: every variant of the enum (list generated from the macro invocation) is found again from its own number
+include!(concat!(env!("RBX_DOM_VERIF_GEN"), "/k13_brick_variants.rs"));
+
+#[kani::proof]
+fn k13_brickcolor_variants() {
+    let i: usize = kani::any();
+    kani::assume(i < BRICK_VARIANTS.len());
+    let v = BRICK_VARIANTS[i];
+    let n = v as u16;
+    match BrickColor::from_number(n) {
+        Some(c) => {
+            assert!(c == v);
+            kani::cover!(n == 365);
+        }
+        None => panic!("variant not found from its own number"),
+    }
+}
+
 #[kani::proof]
 fn k13_font_weight_style() {
     let w: u16 = kani::any();
